@@ -175,7 +175,7 @@ def parse_type(t):
 
 def sort_of(t):
     base, _, _ = parse_type(t)
-    return {"int": I, "bool": B, "real": R, "enum": I, "ref": I, "list": I}[base]
+    return {"int": I, "bool": B, "real": R, "enum": I, "ref": I, "list": I, "tok": I, "?": I}[base]
 
 
 def wrap(term, t, none=None):
@@ -194,10 +194,19 @@ def wrap(term, t, none=None):
         return Ref(term, arg, none=n)
     if base == "list":
         return ListV(term, arg, none=n)
+    if base == "tok":
+        from .tokens import TokV, tok_dec
+        return TokV(tok_dec(term))
     raise VCError(f"unknown type {t}")
 
 
 def term_of(v):
+    if isinstance(v, StrV):
+        from .tokens import tok_of_str, tok_enc
+        return tok_enc(tok_of_str(v))
+    if type(v).__name__ == "TokV":
+        from .tokens import tok_enc
+        return tok_enc(v.term)
     if isinstance(v, (Num, BoolV, EnumV, Ref, ListV)):
         return v.v
     raise VCError(f"value {v!r} has no single term")
@@ -217,7 +226,7 @@ def fresh_like(v, name="h"):
         return ListV(fresh(name), v.elem, none=n)
     if isinstance(v, TupleV):
         return TupleV([fresh_like(x, name) for x in v.items])
-    if isinstance(v, (NoneV, Opaque, Closure, ConstList, ConstDict, StrV)):
+    if isinstance(v, (NoneV, Opaque, Closure, ConstList, ConstDict, StrV, CondDes)) or type(v).__name__ in ("TokV", "DictObj"):
         return v
     raise VCError(f"cannot havoc {v!r}")
 
@@ -258,3 +267,22 @@ class CondDes(Val):
 
     def __init__(self, cond, val):
         self.cond, self.val = cond, val
+
+
+class DictObj(Val):
+    """Python-level dict with constant string keys: key -> (present: z3 Bool, value: Val).  Immutable value; stores rebind."""
+
+    def __init__(self, entries=None, none=None):
+        self.entries = dict(entries or {})
+        self.none = none
+
+    def get(self, key):
+        return self.entries.get(key)
+
+    def with_(self, key, val):
+        e = dict(self.entries)
+        e[key] = (TRUE, val)
+        return DictObj(e, self.none)
+
+    def __repr__(self):
+        return "Dict{" + ", ".join(self.entries) + "}"
